@@ -75,6 +75,10 @@ CLAIMED = {
          "Generated-input search over Primitive trees placed as indirect body (as save writes it), dictionary value, array element, SCN and BDC/DP operands; every 1- and 2-byte string and every Unicode scalar (as name and as key) exhaustively. Round-trip equality up to Integer/Real identification and no panic in serialize.",
          "placement strings mirror Storage::save and serialize_ops; canonical comparison identifies Integer n with Real n.0",
          "DESIGN.md §4 C04"),
+ "C15": ("model-driven generation with round-trip (write.read idempotence) and superset (catch-all) oracles over ~95 typed models: exhaustive single-entry edits plus proptest-generated multi-edit instances",
+         "Generated-input search: every model's full instance is edited entry by entry (dropped, int<->real, scalar<->one-element array, direct<->indirect, model-specific alternatives), given unknown entries and (streams) one of ten filter chains; the instance is parsed from a generated file, read as the model, written through the file's updater, read and written again; the two written forms must be equal with references followed, and catch-all models must keep every input entry. Single edits are enumerated completely, combinations are sampled (60k quick, 3M thorough).",
+         "the model table (harness/src/engine/schema.rs) is hand-written from the #[pdf(..)] attributes; values whose writer is unimplemented!()/Err are outside the property and counted as rejected",
+         "DESIGN.md §4 C15"),
  "C16": ("exhaustive enumeration of short inputs + proptest-generated data; round-trip and differential oracle against an independent reference decoder",
          "Generated-input search: every byte string up to length 2 (quick) / 3 (thorough), single-value runs to 70000 bytes and structured random data to 64 KiB, for all four encodable filters; each must round-trip through the library decoder and be decoded to the same bytes by an independent decoder. Exploration, not proof: strings longer than 3 bytes are sampled.",
          "trusts harness/src/engine/filters.rs reference decoders (LZW cross-checked against weezl) and flate2's zlib",
